@@ -42,6 +42,10 @@ Proof. intro f. reflexivity. Qed.
 (** the GROUPING SETS block carries HAVING COUNT( * ) > 0 (repair of the cube-on-empty-input defect) *)
 Lemma gen_cube_having : g_cube_having gen_gcfg = true.
 Proof. reflexivity. Qed.
+(** grouping_id()'s argument list is overwritten with this cube's keys whatever it held before: the Column object is the
+    user's and is mutated in place, so anything weaker would make the result depend on earlier agg calls *)
+Lemma gen_gid_guard : forall old_empty, gid_guard true old_empty = true /\ gid_guard false old_empty = false.
+Proof. intros [|]; split; reflexivity. Qed.
 Lemma gen_lowers : fmt_lowers_fn = true.
 Proof. reflexivity. Qed.
 (** sqlframe's cube loop visits every subset size 0..n exactly once *)
@@ -80,7 +84,8 @@ Print Assumptions C06_partial_chain.
     again with last >= SELECT, so where/select/orderBy/limit/distinct/agg after it behave as on any DataFrame *)
 Theorem C06_agg_step :
   forall e d ics input keys aggs,
-    cols input = ics -> wf_frame input -> InvR gen_cfg d ics -> nodupb (agg_names keys aggs) = true ->
+    cols input = ics -> wf_frame input -> InvR gen_cfg d ics ->
+    nodupb (agg_names keys aggs) && no_gids aggs = true ->
     let sd := agg_stage gen_cfg gen_gcfg e d keys aggs in
     let out := eval_stages (fst sd) input in
     out = spec_agg keys aggs (eval_df d input)
@@ -90,15 +95,17 @@ Theorem C06_agg_step :
 Proof. exact (agg_step_correct gen_cfg gen_gcfg gen_gcfg_ok). Qed.
 Print Assumptions C06_agg_step.
 
-(** (2) cube: every DataFrame state, every input (the empty one included, since the HAVING repair) *)
+(** (2) cube: every DataFrame state, every input (the empty one included, since the HAVING repair); aggregates may
+    contain grouping_id() as a whole aggregate column ([gids_top]; sqlframe does not expand a nested one) *)
 Theorem C06_cube :
   forall d ics input keys aggs, cols input = ics -> wf_frame input -> InvR gen_cfg d ics ->
+    gids_top aggs = true ->
     let out := eval_stages (cube_stage gen_cfg gen_gcfg cube_idx d keys aggs) input in
     cols out = cols (spec_cube keys aggs (eval_df d input))
     /\ Permutation (rows out) (rows (spec_cube keys aggs (eval_df d input))).
 Proof.
-  exact (fun d ics input keys aggs Hc Hw HI =>
-           cube_step_correct gen_cfg gen_gcfg gen_gcfg_ok cube_idx d ics input keys aggs gen_cube_idx Hc Hw HI
+  exact (fun d ics input keys aggs Hc Hw HI Ht =>
+           cube_step_correct gen_cfg gen_gcfg gen_gcfg_ok cube_idx d ics input keys aggs gen_cube_idx Hc Hw HI Ht
                              (or_introl gen_cube_having)).
 Qed.
 Print Assumptions C06_cube.
@@ -118,12 +125,14 @@ Proof.
 Qed.
 Print Assumptions C06_names.
 
-(** so the only part of [C06_full] that is restricted is the program part (domain [xops_ok]) *)
+(** so the restricted parts of [C06_full] are the program part (domain [xops_ok]) and grouping_id() nested inside an
+    aggregate expression of a cube ([gids_top]) *)
 Theorem C06_partial :
   (forall xops input, wf_frame input -> NoDup (cols input) ->
      xops_ok gen_cfg gen_gcfg (init_x (cols input)) xops = true ->
      eval_x (xcompile gen_cfg gen_gcfg xops (init_x (cols input))) input = xspec_run xops input)
   /\ (forall d ics input keys aggs, cols input = ics -> wf_frame input -> InvR gen_cfg d ics ->
+        gids_top aggs = true ->
         let out := eval_stages (cube_stage gen_cfg gen_gcfg cube_idx d keys aggs) input in
         cols out = cols (spec_cube keys aggs (eval_df d input))
         /\ Permutation (rows out) (rows (spec_cube keys aggs (eval_df d input))))
@@ -168,9 +177,21 @@ Theorem C06_cube_has_every_subtotal : forall keys aggs fr sub r,
   In sub (powerset (map fst keys)) -> In r (rows fr) ->
   let k := keyvals (cols fr) sub r in
   In (map (fun e => key_lookup e sub k) (map fst keys)
-      ++ agg_row (cols fr) (members (cols fr) sub (rows fr) k) (map fst aggs))
+      ++ agg_row (cols fr) (members (cols fr) sub (rows fr) k) (map (spark_gid (map fst keys) sub) (map fst aggs)))
      (rows (spec_cube keys aggs fr)).
 Proof. exact cube_has_every_subtotal. Qed.
+(** count(distinct e1, .., en) skips the rows in which some member is NULL; an all-"NULL somewhere" group gives 0 *)
+Theorem C06_count_distinct_n_skips_null : forall cs rs es,
+  eval_aggfn cs (filter (members_not_null cs es) rs) (FCountDistinctN es) = eval_aggfn cs rs (FCountDistinctN es)
+  /\ ((forall r, In r rs -> members_not_null cs es r = false) -> eval_aggfn cs rs (FCountDistinctN es) = VInt 0).
+Proof. exact count_distinct_n_skips_null. Qed.
+(** the GROUPING_ID(keys) sqlframe writes is Spark's grouping_id() at every sub-total level, whatever argument list
+    the user's Column object carried before *)
+Theorem C06_grouping_id_level : forall keys gs x, gid_top x = true ->
+  resolve_gid gs (expand_gid (g_gid_always gen_gcfg) keys x) = spark_gid keys gs x.
+Proof. exact expand_is_spark. Qed.
+Print Assumptions C06_count_distinct_n_skips_null.
+Print Assumptions C06_grouping_id_level.
 Print Assumptions C06_one_row_per_distinct_key.
 Print Assumptions C06_null_is_a_key.
 Print Assumptions C06_cube_has_every_subtotal.
@@ -194,6 +215,12 @@ Proof. vm_compute. reflexivity. Qed.
 Example C06_cube_on_empty_input :
   rows (eval_stages (cube_stage gen_cfg gen_gcfg cube_idx (init_df ["a"]%string) [(ECol "a", "a"%string)]
                                 [(XAgg FCountStar, "count"%string)]) (mkFrame ["a"]%string [])) = [].
+Proof. vm_compute. reflexivity. Qed.
+Example C06_cube_grouping_id :
+  rows (eval_stages (cube_stage gen_cfg gen_gcfg cube_idx (init_df ["a"; "s"]%string)
+                                [(ECol "a", "a"%string); (ECol "s", "s"%string)]
+                                [(XGroupingId [ECol "s"], "lvl"%string)]) (mkFrame ["a"; "s"]%string [[VInt 1; VNull]]))
+  = [[VInt 1; VNull; VInt 0]; [VInt 1; VNull; VInt 1]; [VNull; VNull; VInt 2]; [VNull; VNull; VInt 3]].
 Proof. vm_compute. reflexivity. Qed.
 (** and the dict form about 'mean' and '*' *)
 Example C06_dict_mean_and_star :
